@@ -36,3 +36,33 @@ Theorem C03_edges_symmetric : forall order (s s' : st) tr,
   loop order s = Some (s', tr) -> Inv order s -> LRF order tr ->
   forall n m, m ∈ dependentsOf s' n <-> n ∈ depsOf s' m.
 Proof. intros order s s' tr H1 H2 H3. exact (proj2 (proj2 (loop_consistent _ _ _ _ H1 H2 H3))). Qed.
+
+(* ---------- the untracked forms, on the full runtime model (Reactive/TrackerFacts.v) ---------- *)
+Require Syc.Reactive.TrackerFacts Syc.Reactive.Frame.
+Module TF := Syc.Reactive.TrackerFacts.
+Module RI := Syc.Reactive.Interp.
+Module RS := Syc.Reactive.Syntax.
+
+(* untrack(..) and component bodies give back the tracker they found: nothing read inside subscribes *)
+Theorem C03_untrack_never_subscribes : forall f en ss s en' s',
+  RI.exec1 true f en (RS.SUntrack ss) s = RI.Ok en' s' -> RI.tracker s' = RI.tracker s.
+Proof. exact TF.untrack_restores. Qed.
+Theorem C03_component_never_subscribes : forall f en ss s en' s',
+  RI.exec1 true f en (RS.SComponent ss) s = RI.Ok en' s' -> RI.tracker s' = RI.tracker s.
+Proof. exact TF.component_restores. Qed.
+(* disposal (hence every cleanup callback) gives back the tracker it found *)
+Theorem C03_cleanups_never_subscribe : forall f id s s', RI.dispose true f id s = RI.Ok tt s' -> RI.tracker s' = RI.tracker s.
+Proof. exact TF.dispose_restores. Qed.
+Theorem C03_rerun_cleanups_never_subscribe : forall f id s s', RI.dispose_children true f id s = RI.Ok tt s' -> RI.tracker s' = RI.tracker s.
+Proof. exact TF.dispose_children_restores. Qed.
+(* on(deps, ..): after the body the tracker is the caller's tracker with exactly the ids of deps appended *)
+Theorem C03_on_tracks_deps_only : forall f c deps ss ret s v s', RI.c_body c = RS.Body (Some deps) ss ret ->
+  RI.run_body true f c s = RI.Ok v s' ->
+  exists ids, TF.on_ids (RI.c_env c) deps ids /\ RI.tracker s' = TF.tracked_more ids (RI.tracker s).
+Proof. exact TF.on_deps_only. Qed.
+(* get_untracked never touches the tracker; a tracked read appends exactly its node *)
+Theorem C03_get_untracked_never_subscribes : forall en x s, RI.tracker (Syc.Reactive.Frame.st_of (RI.eval en (RS.GetU x) s)) = RI.tracker s.
+Proof. exact TF.getu_tracker. Qed.
+Theorem C03_get_subscribes : forall en x id s v s', RI.lookup_env x en = Some (RI.BNode id) ->
+  RI.eval en (RS.Get x) s = RI.Ok v s' -> RI.tracker s' = TF.tracked_more [id] (RI.tracker s).
+Proof. exact TF.get_tracks. Qed.
